@@ -48,25 +48,37 @@ MoveExprs(m) == CASE m.v \in {"mutate", "summarize"} -> [i \in DOMAIN m.kv |-> m
                   [] m.v = "arrange" -> [i \in DOMAIN m.os |-> m.os[i].e]
                   [] OTHER -> <<>>
 
-(* Cache.requires_subquery; t = the table the verb is applied to, c = its Cache fields.  "" = fits *)
-Rq(c, t, m) ==
+(* Cache.requires_subquery; t = the table the verb is applied to, c = its Cache fields.  "" = fits                      *)
+(* The code reads column kinds from two places: `ck` = the kinds recorded in the Cache (reset to element-wise by a      *)
+(* SubqueryMarker) and `ek` = the kinds carried by the Col objects inside the verb's expressions (the objects the user  *)
+(* holds: they keep the kind they were created with, also across a subquery).  Rq is the ideal catalogue (both = the    *)
+(* true kinds t.fk); MC_SqlFlat tracks the two separately (named deviation: the code is more conservative).             *)
+Rq2(c, t, ck, ek, m) ==
     LET es  == MoveExprs(m)
-        fk(x) == t.fk[x]
         cols == UNION {ColsOf(es[i]) : i \in DOMAIN es} \cap Scope(t)
         ops == Flat([i \in DOMAIN es |-> AggWinOps(es[i])])
         partset == {t.part[i] : i \in DOMAIN t.part}
     IN
     IF m.v \in {"filter", "summarize", "arrange", "group_by"} /\ c.lim # 0 THEN "after slice_head"
     ELSE IF m.v = "mutate" /\ c.lim # 0 /\ ops # <<>> THEN "window in mutate after slice_head"
-    ELSE IF m.v = "mutate" /\ \E i \in DOMAIN ops : \E x \in ColsOf(ops[i]) \cap Scope(t) : fk(x) \in {"w", "a"}
+    ELSE IF m.v = "mutate" /\ \E i \in DOMAIN ops : \E x \in ColsOf(ops[i]) \cap Scope(t) : ek[x] \in {"w", "a"}
          THEN "nested window / aggregation in mutate"
-    ELSE IF m.v = "filter" /\ \E x \in cols : fk(x) = "w" THEN "window function in filter"
-    ELSE IF m.v = "filter" /\ \E x \in Scope(t) : fk(x) = "w" THEN "filter after a window function column"
+    ELSE IF m.v = "filter" /\ \E x \in cols : ek[x] = "w" THEN "window function in filter"
+    ELSE IF m.v = "filter" /\ \E x \in Scope(t) : ck[x] = "w" THEN "filter after a window function column"
     ELSE IF m.v = "summarize" /\ c.grp # {} /\ c.grp # partset THEN "nested summarize"
     ELSE IF m.v = "summarize" /\ c.summ THEN "nested summarize"
-    ELSE IF m.v = "summarize" /\ \E x \in cols : fk(x) \in {"w", "a"} THEN "nested window / aggregation in summarize"
-    ELSE IF m.v = "summarize" /\ \E x \in partset : fk(x) = "w" THEN "window function among grouping columns"
+    ELSE IF m.v = "summarize" /\ \E x \in cols : ek[x] \in {"w", "a"} THEN "nested window / aggregation in summarize"
+    ELSE IF m.v = "summarize" /\ \E x \in partset : ck[x] = "w" THEN "window function among grouping columns"
     ELSE ""
+
+Rq(c, t, m) == Rq2(c, t, t.fk, t.fk, m)
+
+(* the kind a new column gets from its defining expression (ColFn.ftype): e(e)->e, e(a)->a, e(w)->w; an aggregate in mutate is a window *)
+KindFrom(e, ek, inMutate, scope) ==
+    LET ops == AggWinOps(e)
+        ks == {ek[x] : x \in ColsOf(e) \cap scope}
+    IN IF ops # <<>> THEN (IF inMutate \/ \E i \in DOMAIN ops : ops[i].k = "win" THEN "w" ELSE "a")
+       ELSE IF "w" \in ks THEN "w" ELSE IF "a" \in ks THEN "a" ELSE "e"
 
 CsUpdate(c, t, m) ==
     CASE m.v = "filter" -> [c EXCEPT !.filt = TRUE]
